@@ -5,6 +5,7 @@ import Gpc.Driver.Utf
 import Gpc.Driver.Arena
 import Gpc.Driver.Scope
 import Gpc.Driver.Map
+import Gpc.Driver.Array
 open Gpc.Proto
 
 /-- state of the stateful models (one operation script at a time) -/
@@ -12,6 +13,7 @@ structure St where
   arena : Gpc.Driver.ArenaSt := {}
   scopes : List (Nat × Gpc.Driver.ScopeSt) := []
   map : Gpc.Driver.MapSt := {}
+  arr : Gpc.Driver.ArrSt := {}
 
 def dispatch (st : St) (toks : List String) : St × String :=
   match toks with
@@ -22,6 +24,7 @@ def dispatch (st : St) (toks : List String) : St × String :=
   | "ar" :: rest => let (a, o) := Gpc.Driver.arenaStep st.arena rest; ({ st with arena := a }, o)
   | "sc" :: rest => let (a, o) := Gpc.Driver.scopeStep st.scopes rest; ({ st with scopes := a }, o)
   | "map" :: rest => let (a, o) := Gpc.Driver.mapStep st.map rest; ({ st with map := a }, o)
+  | "arr" :: rest => let (a, o) := Gpc.Driver.arrStep st.arr rest; ({ st with arr := a }, o)
   | _ => (st, "bad-op")
 
 partial def loop (h : IO.FS.Stream) (out : IO.FS.Stream) (st : St) : IO Unit := do
